@@ -92,8 +92,22 @@ def gen_pf(rng, depth, in_body, names, flags):
     if which == "ifeq":
         a = s()
         b = a if rng.random() < 0.4 else s()
+        if rng.random() < 0.25:
+            # two spellings of one number, or of two different ones: compared numerically (01 = 1 = 1.0 = 1e0, 0 = -0)
+            NUMS = ["1", "01", "1.0", "+1", "1e0", "10", "1e1", "010", "0", "-0", "0.0", "12", "12.", "1.20e1", ".5", "0.50", "2", "-2"]
+            a, b = txt(rng.choice(["", " "]) + rng.choice(NUMS)), txt(rng.choice(NUMS) + rng.choice(["", " ", "\n"]))
         return T([txt("#ifeq:") + a, b, s()] + ([s()] if rng.random() < 0.7 else []))
     val = txt(rng.choice(["a", "b", "c", "d", "zz"]))
+    if rng.random() < 0.2:
+        # numeric labels: the value and a case that is another spelling of the same number
+        val = txt(rng.choice(["1", "01", "2", "1.0", "10", "1e1"]))
+        cases = []
+        for _ in range(rng.randint(1, 4)):
+            k = rng.choice(["1", "+1", "01", "2", "02", "1e1", "10", "a", "#default"])
+            cases.append(txt(k + "=") + s() if rng.random() < 0.8 else txt(k))
+        if rng.random() < 0.3:
+            cases.append(s())
+        return T([txt("#switch:") + val] + cases)
     cases = []
     for _ in range(rng.randint(1, 4)):
         k = rng.choice(["a", "b", "c", "d", "#default"])
@@ -530,8 +544,25 @@ class Ref:
             return self.arg(args, 1, env, depth, in_body)
         return self.arg(args, 2, env, depth, in_body)
 
+    @staticmethod
+    def mw_eq(a, b):
+        """MediaWiki's comparison for #ifeq and #switch (Help:Extension:ParserFunctions): numerically when both strings are
+        numbers, as case-sensitive text otherwise; written independently of the package (exact decimal arithmetic)"""
+        if a == b:
+            return True
+        import re as _re
+        from fractions import Fraction
+        num = _re.compile(r"[+-]?([0-9]+\.?[0-9]*|\.[0-9]+)([eE][+-]?[0-9]+)?\Z")
+        if num.match(a) and num.match(b) and "\0" not in a + b:
+            val = lambda t: Fraction(t.replace("E", "e").rstrip(".") if not _re.search(r"\.[eE]", t) else t.replace(".e", "e").replace(".E", "e"))
+            try:
+                return val(a) == val(b)
+            except (ValueError, ZeroDivisionError):
+                return False
+        return False
+
     def pf_ifeq(self, args, env, depth, in_body):
-        if self.arg(args, 0, env, depth, in_body) == self.arg(args, 1, env, depth, in_body):
+        if self.mw_eq(self.arg(args, 0, env, depth, in_body), self.arg(args, 1, env, depth, in_body)):
             return self.arg(args, 2, env, depth, in_body)
         return self.arg(args, 3, env, depth, in_body)
 
@@ -563,7 +594,7 @@ class Ref:
                         break
             if sp is None:
                 last = self.argtext(a, env, depth, in_body).strip()
-                if last == val:
+                if self.mw_eq(last, val):
                     found = True
                 elif last.lower() == "#default":
                     default_found = True
@@ -572,7 +603,7 @@ class Ref:
             if found:
                 return self.argtext(sp[1], env, depth, in_body).strip()
             k = self.argtext(sp[0], env, depth, in_body).strip()
-            if k == val:
+            if self.mw_eq(k, val):
                 return self.argtext(sp[1], env, depth, in_body).strip()
             v_empty = len(sp[1]) == 0 or (self.kludge and in_body and list(sp[1]) == [10])
             if k.lower() == "#default":
